@@ -904,7 +904,7 @@ def run(ctx):
         else:
             ctx.violation(Finding('R-COUNTATTR', IO, 'ioapi_base.updatemeta', 'set %s' % attr,
                                   'updatemeta does not set %s from the length of dimension %s' % (attr, dim), lineno=um.lineno), oid=attr)
-    unl = [c for c in walk_expr(um) if isinstance(c, ast.Call) and (dotted(c.func) or '').endswith('.setunlimited')
+    unl = [c for c in walk_expr(um) if isinstance(c, ast.Call) and isinstance(c.func, ast.Attribute) and c.func.attr == 'setunlimited'
            and c.args and isinstance(c.args[0], ast.Constant) and c.args[0].value is True]
     if unl and "'TSTEP' in self.dimensions" in norm(um):
         ctx.ok('R-COUNTATTR', 'TSTEP unlimited', '%s ioapi_base.updatemeta' % where, 'TSTEP marked unlimited')
